@@ -116,10 +116,17 @@ def flow(case, ctx, cd):
         ml = dmodel_outcome(ctx.model.call("disk_list", is_fd, True, raw))
         obs["list"] = rl
         obs["dis"] = obs["dis"] or compare_action(rl, ml, cd, None, "list")
+        mx = dmodel_outcome(ctx.model.call("disk_extract", is_fd, v, [], text_points(arch), raw))
+        # earlier results may already lie in the sideN directories (longer, shorter): extraction replaces them entirely
+        for n_, (p_, c_) in enumerate(mx["effects"]):
+            q = os.path.normpath(os.path.join(cd.cwd, p_))
+            if n_ % 2 == 0 and q.startswith(cd.root) and not os.path.lexists(q):
+                os.makedirs(os.path.dirname(q), exist_ok=True)
+                with open(q, "wb") as f_:
+                    f_.write(b"earlier result " * (len(c_) // 10 + 50) if n_ % 4 == 0 else b"e")
         before = cd.snapshot()
         rx = run_disk(ctx, is_fd, ["-x"] + vf + [arch], cd)
         after = cd.snapshot()
-        mx = dmodel_outcome(ctx.model.call("disk_extract", is_fd, v, [], text_points(arch), raw))
         obs["extract"] = rx
         obs["changed"] = {k: after[k] for k in after if before.get(k) != after[k]}
         obs["after"] = after
